@@ -154,7 +154,7 @@ def check_flip(w0, W, H, arr, meta, probs, R, counters):
             if obj.get_parity_sign() != -p0:
                 probs.append("PIL-backed image: parity not negated")
             after = xyz(*obj.wcs.all_pix2world(xs, H - 1 - ys, 0))
-            if moved(before, after, math.radians(scale) * 1e-6 + 1e-13)[1].any():
+            if moved(before, after, math.radians(scale) * 1e-6 + 1e-12)[1].any():
                 probs.append("PIL-backed image: pixels moved on the sky after flip_parity (%s)" % meta)
             obj.ensure_negative_parity()
             obj.ensure_negative_parity()
@@ -178,7 +178,7 @@ def check_flip(w0, W, H, arr, meta, probs, R, counters):
         if kind == "image" and not np.array_equal(obj.asarray(), arr[::-1]):
             probs.append("image rows are not reversed exactly after flip_parity (%s)" % meta)
         after = xyz(*w1.all_pix2world(xs, H - 1 - ys, 0))
-        tol = math.radians(scale) * 1e-6 + 1e-13
+        tol = math.radians(scale) * 1e-6 + 1e-12
         d, bad = moved(before, after, tol)
         counters["pixels_compared"] += len(xs)
         if bad.any():
@@ -232,7 +232,7 @@ def check_group(R, rng, probs, counters):
         before = xyz(*x.all_pix2world(xs, ys, 0))
         after = xyz(*im.wcs.all_pix2world(xs, (H - 1 - ys) if flipped else ys, 0))
         scale = math.sqrt(abs(np.linalg.det(x.pixel_scale_matrix)))
-        if moved(before, after, math.radians(scale) * 1e-6 + 1e-13)[1].any():
+        if moved(before, after, math.radians(scale) * 1e-6 + 1e-12)[1].any():
             probs.append("image %d of a group: pixels moved on the sky (%s)" % (i, meta))
     # (2) the same WCS with different heights
     w2, W2, H2, meta2 = rand_wcs(R)
@@ -245,7 +245,7 @@ def check_group(R, rng, probs, counters):
         ys2 = np.array([0, Hk - 1, Hk // 2], float)
         before = xyz(*w2.all_pix2world(xs2, ys2, 0))
         after = xyz(*obj.wcs.all_pix2world(xs2, Hk - 1 - ys2, 0))
-        d, bad = moved(before, after, math.radians(scale) * 1e-6 + 1e-13)
+        d, bad = moved(before, after, math.radians(scale) * 1e-6 + 1e-12)
         counters["same_wcs_other_height"] += 1
         if bad.any():
             probs.append("%s of height %d flipped after objects of other heights with the same WCS: pixels moved on the sky by %.3g pixel (%s)" % (kind, Hk, float(np.nanmax(d)) / math.radians(scale), meta2))
